@@ -37,7 +37,7 @@ def splits(n, parts):
 
 
 def make_sim(root, simname, layout=('onefile', 'ungrouped'), restarts=None, shape=(6, 5, 4), cuts=(1, 1, 1), ghost=2,
-             rls=(0,), variables=('alp', 'betax', 'gxx'), chunk_order=None, t_of=lambda it: 1.0 + 0.5 * it):
+             rls=(0,), variables=('alp', 'betax', 'gxx'), chunk_order=None, t_of=lambda it: 1.0 + 0.5 * it, groups=None):
     """restarts: list of (restart number, [iterations], generation tag).  -> truth dict"""
     restarts = restarts or [(0, [0, 2, 4], 0)]
     proc, grouped = layout[0] == 'proc', layout[1] == 'grouped'
@@ -58,7 +58,8 @@ def make_sim(root, simname, layout=('onefile', 'ungrouped'), restarts=None, shap
                 files[name] = h5py.File(os.path.join(d, name), 'w')
             return files[name]
         for var in variables:
-            thorn, group = GROUPS[var]
+            thorn, group = (groups or {}).get(var) or GROUPS[var]
+            VAR_ID.setdefault(var, len(VAR_ID) + 1)
             base = group if grouped else var
             for it in its:
                 for rl in rls:
